@@ -138,6 +138,53 @@ def inputs_for(T, env, rng):
     return outs
 
 
+def refs_model(ctx: Ctx):
+    """spec/Refs.tla: what a string reference denotes.  The model is checked (the pinned resolution rule must fail), every
+    (text, explicit module, call stack) case it emits is issued to the real refs.forwardref / refs.evaluate from generated
+    modules, and the trace spec judges the outcomes by the reference layer (and reports drift from the transcription)."""
+    from .. import refsworld as rw
+    model = tlc.must(tlc.run("Refs", "MC_Refs.cfg", workers=4), "Refs model")
+    pinned = tlc.run("Refs", "MC_Refs_pinned.cfg", workers=2)
+    if pinned.ok or "Transparent" not in pinned.stdout:
+        raise tlc.MachineryError("Refs model not sensitive: the first-dot rule must violate Transparent")
+    em = tlc.must(tlc.run("Refs", cfg_text=open(tlc.SPEC_DIR + "/MC_Refs.cfg").read().replace("Emit = FALSE", "Emit = TRUE"), workers=1),
+                  "Refs emit")
+    cases = [p for p in em.printed if isinstance(p, dict) and "call" in p]
+    if len(cases) * 2 != em.distinct:
+        raise tlc.MachineryError(f"Refs emit: {len(cases)} cases for {em.distinct} states")
+    mods = rw.build()
+    events, texts = [], []
+    try:
+        for pss in (cases, cases[::-1]):            # a second pass in reverse order: the name memo of the library is warm
+            for k, cse in enumerate(pss):
+                if pss is cases:
+                    clear_typelib_caches()
+                got, text = rw.observe(cse["call"], mods)
+                events.append({"call": cse["call"], "got": got})
+                texts.append((text, "cold" if pss is cases else "warm"))
+    finally:
+        rw.dispose()
+    # the warm pass meets the ==-keyed name memo (a bare name resolved for one caller answers for the next: KF-C12-02, C12's
+    # subject): only cold outcomes are judged here, warm ones are kept as drift information
+    ncold = len(cases)
+    tres, rejects = tlc.validate_trace("Refs_Trace", "Refs_Trace.cfg", events[:ncold], timeout=3600)
+    viol = []
+    for r in rejects:
+        e = events[r["rej"] - 1]
+        viol.append(Violation(clause=r["clause"], case={"refs": True, "call": e["call"], "text": texts[r["rej"] - 1][0]},
+                              fields={"text_kind": e["call"]["t"]["k"], "explicit": e["call"]["explicit"] != "-", "frames": len(e["call"]["stack"]),
+                                      "got": e["got"]["k"]},
+                              msg=f"{texts[r['rej'] - 1][0]!r} explicit={e['call']['explicit']} stack={e['call']['stack']}: got {e['got']} want {r['want']}"))
+    drift = [{"text": texts[p["drift"] - 1][0], "call": events[p["drift"] - 1]["call"], "got": events[p["drift"] - 1]["got"], "model": p["model"]}
+             for p in tres.printed if isinstance(p, dict) and "drift" in p][:20]
+    warm_moved = sum(1 for a, b in zip(events[:ncold], events[ncold:][::-1]) if a["got"] != b["got"])
+    asserted = sum(1 for cse in cases if cse["ref"]["k"] == "obj")
+    cov = {"refs_model_states": model.distinct, "refs_cases": ncold, "refs_cases_asserted": asserted,
+           "refs_cases_drifting_from_transcription": len([p for p in tres.printed if isinstance(p, dict) and "drift" in p]),
+           "refs_outcomes_moved_by_warm_memo": warm_moved}
+    return viol, cov, drift, model
+
+
 def collect(ctx: Ctx, quick: bool):
     import typelib
     rng = random.Random(ctx.seed)
@@ -152,7 +199,7 @@ def collect(ctx: Ctx, quick: bool):
         env = Env(case_defs(chain, base), tag="w")
         env.build(None, "m1")
         m1 = env.modules["m1"]
-        exec(compile(CALLERS, "<verif-callers>", "exec", dont_inherit=True), m1.__dict__)
+        exec(compile(CALLERS, env.filename("m1"), "exec", dont_inherit=True), m1.__dict__)
         other = env.modules.get("m2")
         for pos, Wt, Tt in positions(chain, base):
             try:
@@ -224,23 +271,43 @@ def run(ctx: Ctx) -> Outcome:
                               fields={"pos": m["pos"], "origin": m["origin"], "op": m["op"], "outer": m["chain"][0], "base": m["base"],
                                       "wrapped_raised": e["a"].get("e", ""), "plain_raised": e["b"].get("e", "")},
                               msg=f"{json.dumps(m)} wrapped={json.dumps(e['a'])[:160]} plain={json.dumps(e['b'])[:160]}"))
+    rviol, rcov, rdrift, rmodel = refs_model(ctx)
+    viol += rviol
     nontrivial = {(m["base"], tuple(m["chain"]), m["pos"], m["origin"], m["op"], m["input"]) for e, m in zip(events, meta) if e["b"]["k"] == "ok"}
-    cov = {"states": model.distinct, "transitions": model.generated,
-           "traces_validated_against_impl": len(events), "evaluations": len(events),
+    cov = {"states": model.distinct + rmodel.distinct, "transitions": model.generated + rmodel.generated, **rcov,
+           "traces_validated_against_impl": len(events) + rcov["refs_cases"], "evaluations": len(events) + rcov["refs_cases"],
            "distinct_nontrivial": len(nontrivial),
            "rule": "wrapper chains of length <=3 over NewType / TypeAliasType(value) / TypeAliasType('string') with Final and ClassVar where "
                    "Python permits x 10 base types (scalars, containers, a dataclass, a recursive dataclass, an enum, a dotted source spelling) "
                    "x positions (root, list argument, mapping value, tuple member, union member, class field, recursive back-edge) x reference "
                    "origins (object, string in the defining module, string from 3 nested calls, ForwardRef(module=), module-qualified string, a "
                    "string naming the module twice) x "
-                   "inputs (valid values, wire forms, JSON text, junk) for marshal/unmarshal/encode/decode; non-trivial = the plain type accepts",
+                   "inputs (valid values, wire forms, JSON text, junk) for marshal/unmarshal/encode/decode; non-trivial = the plain type accepts; "
+                   "string references: spec/Refs.tla (what a text denotes: Python's reading in the namespace it was written in vs the "
+                   "transcribed module resolution; the first-dot rule of the pinned snapshot must fail) checked for 42 structured texts "
+                   "(dotted paths, list[path], typing.Optional[path], path | path; module-qualified, class-qualified, through an imported "
+                   "module, unbound) x explicit module x 4 call stacks, every case issued to the real refs.forwardref / refs.evaluate from "
+                   "generated modules and judged by Refs_Trace.tla",
            "samples": [dict(meta[len(meta) // 3], event=events[len(events) // 3])]}
-    return Outcome(level="model_checking", coverage=cov, violations=viol,
+    return Outcome(level="model_checking", coverage=cov, violations=viol, impl_drift=rdrift,
                    assumptions=["twin classes (field typed W(T) vs T) are compared up to the class name",
+                                "Refs.tla fixes one world of three modules; a user object that shadows the name of a loaded module is outside it",
                                 "string references are re-bound per position and typelib's memos are cleared before each referenced call"])
 
 
 def replay(ctx: Ctx, rep: dict) -> Outcome:
+    if rep["case"].get("refs"):
+        from .. import refsworld as rw
+        mods = rw.build()
+        try:
+            clear_typelib_caches()
+            got, text = rw.observe(rep["case"]["call"], mods)
+        finally:
+            rw.dispose()
+        print("  ", text, "->", got)
+        _, rejects = tlc.validate_trace("Refs_Trace", "Refs_Trace.cfg", [{"call": rep["case"]["call"], "got": got}])
+        return Outcome(level="model_checking", coverage={"evaluations": 1},
+                       violations=[Violation(clause=r["clause"], case=rep["case"], fields={}, msg=f"{text}: {got}") for r in rejects])
     events, meta = collect(Ctx(pid="C11", tier="quick", seed=ctx.seed), True)
     c = rep["case"]
     sel = [(e, m) for e, m in zip(events, meta) if all(m[k] == c[k] for k in ("base", "chain", "pos", "origin", "op"))]
